@@ -150,8 +150,8 @@ def diamond_program(rnd):
     }
 
 
-MONITORS = ("refeq", "restore", "nesting")
-MONITORS_F = ("restore", "nesting")
+MONITORS = ("refeq", "restore", "nesting", "stale")
+MONITORS_F = ("restore", "nesting", "stale")
 HOWS = ["call", "value", "yielded", "yielded_value"]
 
 
